@@ -85,7 +85,15 @@ func (e *Enc) instr(ins ssa.Instruction) {
 	case *ssa.MakeInterface:
 		e.makeInterface(x)
 	case *ssa.ChangeInterface:
-		e.vals[x] = e.val(x.X)
+		ts, xs := e.g().SortOf(x.Type()), e.g().SortOf(x.X.Type())
+		switch {
+		case ts == xs:
+			e.vals[x] = e.val(x.X)
+		case ts == sortAny:
+			e.vals[x] = e.r.def(e.name(x), sortAny, fmt.Sprintf("(any_other %s)", e.val(x.X)))
+		default:
+			e.vals[x] = e.g().zeroOfSort(ts, x.Type())
+		}
 	case *ssa.MakeClosure:
 		e.funcs[x] = "closure:" + x.Fn.(*ssa.Function).String()
 		e.vals[x] = "0"
